@@ -12,12 +12,13 @@ PROPS = ["C02/Props.v"]
 DRIVER = "c02_driver.py"
 CLAUSE = {2: "called-without-change", 3: "called-for-rejected-or-read", 4: "change-not-notified",
           5: "assignment-undone", 6: "old-new-untruthful", 7: "mechanisms-disagree"}
-NPOOL, REJ, ALIAS = 14, 9, 10
+NPOOL, REJ, ALIAS = 15, 9, 10
 POOL_NAMES = ["Eq(1)#a", "Eq(1)#b", "Eq(2)", "nan#a", "nan#b", "EqRaises", "None", "[1]#a", "[1]#b", "rejected", "converted-to-Eq(1)#a",
-              "Incoherent", "0", "0.0"]
+              "Incoherent", "0", "0.0", "ArrayLike(no truth value)"]
 MECH = {"any": "StaticAny", "changed": "StaticChanged", "fired": "StaticFired", "otc": "Otc", "otcany": "OtcAny",
-        "obs": "Observe"}
-STATIC_ID = {"any": 0, "changed": 1, "fired": 2}
+        "obs": "Observe", "dotc": "Otc", "dobs": "Observe", "otcm": "Otc", "obsm": "Observe"}
+STATIC_ID = {"any": 0, "changed": 1, "fired": 2, "dotc": 3, "dobs": 4}
+STATICS = ("any", "changed", "fired", "dotc", "dobs")
 CMP = {"T": C("CTrue"), "F": C("CFalse"), "R": C("CRaise")}
 
 
@@ -25,7 +26,7 @@ CMP = {"T": C("CTrue"), "F": C("CFalse"), "R": C("CRaise")}
 def handlers_of(case):
     """Notifier-list order: class-level static wrappers (anytrait, _x_changed, _x_fired — has_traits.py l.626-631),
     then the dynamic ones on the trait in registration order, then the object-level ones (call_notifiers l.2296-2305)."""
-    hs = [(STATIC_ID[s], s) for s in ("any", "changed", "fired") if s in case["statics"]]
+    hs = [(STATIC_ID[s], s) for s in STATICS if s in case["statics"]]      # decorated handlers are hooked up in __init__
     hs += [(10 + i, m) for i, m in enumerate(case["dyn"]) if m != "otcany"]
     hs += [(10 + i, m) for i, m in enumerate(case["dyn"]) if m == "otcany"]      # the object's notifier list comes last
     return hs
@@ -51,7 +52,8 @@ def to_term(case, ob):
     kind = C("TEvent") if case["kind"] == "event" else C("TNormal", C({"none": "MNone", "identity": "MIdentity",
                                                                         "equality": "MEquality"}[case["mode"]]))
     hs = [C("mkHandler", Nat(i), C(MECH[m]), i in case["raises"]) for i, m in handlers_of(case)]
-    cfg = C("mkConfig", Raw("pool_eq"), Raw("pool_ne"), Raw("pool_validate"), Nat(case["default"]), kind, hs)
+    cfg = C("mkConfig", Raw("pool_eq"), Raw("pool_ne"), Raw("pool_validate"), Nat(case["default"]), kind, hs,
+            bool(case.get("orig")) and case["kind"] == "normal")
     h = []
     for op, st in zip(case["ops"], ob["steps"]):
         o = C("Assign", Nat(op[1])) if op[0] == "Assign" else C(op[0])
@@ -66,19 +68,36 @@ def to_term(case, ob):
 # ---------------------------------------------------------------- keys
 def key_fn(case, ob, step, clause):
     op = case["ops"][step]
-    return "%s/%s/%s" % (CLAUSE.get(clause, clause), case["kind"] if case["kind"] == "event" else case["mode"], op[0])
+    key = "%s/%s/%s" % (CLAUSE.get(clause, clause), case["kind"] if case["kind"] == "event" else case["mode"], op[0])
+    if case.get("orig") and case["kind"] == "normal" and clause == 2 and op[0] == "Assign":
+        # shape of F-C02-orig: a trait that stores the original object, the stored object assigned again, handlers called with
+        # old is new
+        st = ob["steps"][step]
+        if st["calls"] and all(c[1] == c[2] == st["slot"] for c in st["calls"]):
+            key += "/stores-original-value/identical-object-again"
+    if case.get("orig") and case["kind"] == "normal" and clause == 4 and op[0] == "Assign":
+        # second shape of F-C02-orig: the VALIDATED value is the stored object (or the not yet materialised default), the
+        # assigned (and then stored) object is another
+        prev = ob["steps"][step - 1]["slot"] if step > 0 else None
+        if prev is None:
+            prev = case["default"]
+        if op[1] == ALIAS and prev == 0 and not ob["steps"][step]["calls"]:
+            key += "/stores-original-value/validated-value-is-the-stored-object"
+    return key
 
 
 def describe(case, ob, step, clause):
     op = case["ops"][step]
-    return ("trait x (%s, mode %s, default %s), handlers %r raising %r: clause %s fails at step %d (%s%s): observed %r; "
-            "history so far %r" % (case["kind"], case["mode"], POOL_NAMES[case["default"]], handlers_of(case), case["raises"],
+    return ("trait x (%s, mode %s, default %s%s), handlers %r raising %r: clause %s fails at step %d (%s%s): observed %r; "
+            "history so far %r" % (case["kind"], case["mode"], POOL_NAMES[case["default"]],
+                                   ", stores the original value" if case.get("orig") else "", handlers_of(case), case["raises"],
                                    CLAUSE.get(clause, clause), step, op[0], " " + POOL_NAMES[op[1]] if len(op) > 1 else "",
                                    ob["steps"][step], case["ops"][:step + 1]))
 
 
 def nontrivial(case, ob):
-    sig = json.dumps([case["kind"], case["mode"], case["default"], case["statics"], case["dyn"], case["raises"], case["ops"]])
+    sig = json.dumps([case["kind"], case["mode"], case["default"], case["statics"], case["dyn"], case["raises"], case["ops"],
+                      bool(case.get("orig"))])
     nt = any(s["calls"] or s["out"] != "Ok" for s in ob["steps"])
     return sig, nt
 
@@ -88,15 +107,16 @@ def gen_case(rnd, ctx, maxlen):
     kind = "event" if rnd.random() < 0.2 else "normal"
     mode = rnd.choice(["none", "identity", "equality", "equality"])
     default = rnd.choice([6, 6, 0, 3])
-    statics = [s for s in ("any", "changed", "fired") if rnd.random() < 0.5]
-    dyn = [rnd.choice(["otc", "obs", "otc", "obs", "otcany"]) for _ in range(rnd.choice([0, 1, 2, 2, 3, 4]))]
+    statics = [s for s in ("any", "changed", "fired") if rnd.random() < 0.5] + [s for s in ("dotc", "dobs") if rnd.random() < 0.25]
+    dyn = [rnd.choice(["otc", "obs", "otc", "obs", "otcany", "otcm", "obsm"]) for _ in range(rnd.choice([0, 1, 2, 2, 3, 4]))]
     if not statics and not dyn and rnd.random() < 0.8:
         dyn = ["otc", "obs"]
     ids = [STATIC_ID[s] for s in statics] + [10 + i for i in range(len(dyn))]
     raises = sorted(rnd.sample(ids, min(len(ids), rnd.choice([0, 0, 1, 1, 2]))))
     ops = []
     cur = None
-    groups = [[0, 1, 10], [3, 4], [7, 8], [12, 13], [5], [11], [2], [6], [9]]
+    groups = [[0, 1, 10], [3, 4], [7, 8], [12, 13], [5], [11], [2], [6], [9], [14]]
+    orig = kind == "normal" and rnd.random() < 0.2
     for _ in range(rnd.randint(1, maxlen)):
         r = rnd.random()
         if r < 0.12:
@@ -120,7 +140,7 @@ def gen_case(rnd, ctx, maxlen):
         ops.append(["Assign", v])
         ctx.count("op:Assign:" + POOL_NAMES[v])
         if v != REJ:
-            cur = 0 if v == ALIAS else v
+            cur = 0 if (v == ALIAS and not orig) else v
     ctx.count("kind:" + (kind if kind == "event" else mode))
     ctx.count("handlers:%d" % len(ids))
     ctx.count("raising:%d" % len(raises))
@@ -129,12 +149,14 @@ def gen_case(rnd, ctx, maxlen):
     for m in dyn:
         ctx.count("mechanism:" + m)
     ctx.count("history-length:%02d" % len(ops))
-    return dict(kind=kind, mode=mode, default=default, statics=statics, dyn=dyn, raises=raises, ops=ops)
+    ctx.count("stores-original-value:%d" % int(orig))
+    return dict(kind=kind, mode=mode, default=default, statics=statics, dyn=dyn, raises=raises, ops=ops, orig=orig)
 
 
 def corpus():
     cs = []
-    allops = [["Read"]] + [["Assign", v] for v in (0, 1, 0, 0, 10, 3, 3, 4, 5, 5, 9, 11, 2, 11, 11, 7, 8, 7, 12, 13, 6, 6, 9)] + [
+    allops = [["Read"]] + [["Assign", v] for v in (0, 1, 0, 0, 10, 3, 3, 4, 5, 5, 9, 11, 2, 11, 11, 7, 8, 7, 12, 13, 6, 6, 9, 14, 14,
+                                                 2, 14)] + [
         ["Read"], ["Delete"], ["Delete"], ["Assign", 2], ["Delete"], ["Read"], ["Assign", 6], ["Delete"]]
     for kind, mode in (("normal", "none"), ("normal", "identity"), ("normal", "equality"), ("event", "equality")):
         for raises in ([], [1, 11], [0, 2, 10]):
@@ -142,10 +164,17 @@ def corpus():
                            raises=raises, ops=allops))
             cs.append(dict(kind=kind, mode=mode, default=0, statics=["changed"], dyn=["otcany", "obs", "otc", "otcany"],
                            raises=[r + 1 for r in raises if r >= 10], ops=allops))
+            cs.append(dict(kind=kind, mode=mode, default=6, statics=["fired", "dotc", "dobs"], dyn=["obsm", "otcm"],
+                           raises=[3 + (r % 2) for r in raises[:1]] + [r for r in raises if r == 10], ops=allops))
         cs.append(dict(kind=kind, mode=mode, default=0, statics=[], dyn=["obs", "otc", "obs"], raises=[10],
                        ops=[["Assign", 1], ["Assign", 0], ["Read"]]))
         cs.append(dict(kind=kind, mode=mode, default=3, statics=["changed"], dyn=[], raises=[],
                        ops=[["Assign", 3], ["Assign", 4], ["Assign", 3]]))
+    # traits that store the ORIGINAL value (Expression / AdaptsTo style): trigger of F-C02-orig and of its repair
+    for mode in ("none", "identity", "equality"):
+        cs.append(dict(kind="normal", mode=mode, default=6, statics=["changed"], dyn=["obs", "otc"], raises=[], orig=True,
+                       ops=[["Assign", 10], ["Assign", 10], ["Assign", 0], ["Assign", 10], ["Assign", 1], ["Assign", 1], ["Read"],
+                            ["Assign", 9], ["Assign", 14], ["Assign", 14]]))
     return cs
 
 
@@ -160,13 +189,13 @@ def run(ctx):
         "(trait_property_changed) and `del` are outside the model",
     ]
     ctx.cov["rule"] = ("one case = trait kind (normal with comparison mode none/identity/equality, or Event) x default value x "
-                       "handler mix (static _anytrait_changed/_x_changed/_x_fired, 0-4 on_trait_change(name)/on_trait_change()/observe handlers in "
+                       "handler mix (static _anytrait_changed/_x_changed/_x_fired, @on_trait_change / @observe decorated methods, 0-4 on_trait_change(name)/on_trait_change()/observe handlers (functions and bound methods) in "
                        "any registration order, 0-2 of them raising) x history of assignments (identical object again, "
                        "equal-but-not-identical partner, NaN, raising ==, incoherent ==/!=, None, unhashable list, 0/0.0, "
                        "rejected value, converted value) reads (first read of the default included) and `del`; evaluation = one "
                        "operation; non-trivial = some step calls a handler or is refused")
     rnd = random.Random(ctx.seed)
-    n, maxlen = (1500, 12) if ctx.tier == "quick" else (40000, 40)
+    n, maxlen = (1500, 12) if ctx.tier == "quick" else (30000, 40)
     if ctx.replay:
         cases = [json.load(open(ctx.replay))["replay"]["case"]]
     else:
